@@ -26,7 +26,7 @@ RULE = ("inputs: C01's directed corpus, frame URLs with every 1-2 token sequence
         "depends on the escape spelling, escaped tracking keys; option vectors platform_aware x strip_suffix x quoted (canonicalize_url with both quoted values on the inner side). "
         "A case is (url, option vector) for the composition laws and (url a, url b, vector) for collisions; non-trivial = C(u) != u, or an actual collision C(a)==C(b) / N(a)==N(b) with a != b; distinct = distinct tuple.")
 ASSUMPTIONS = ["same options on both sides; inputs that normalize_url returns unchanged because it cannot parse them are excluded (C05 owns them)", "the hierarchy is only checked in the stated direction"]
-FLOORS = ["N-of-C-checked", "F-of-C-checked", "canonical-collision-seen", "normalized-collision-seen", "sort-order-depends-on-spelling", "escaped-tracking-key", "escaped-uppercase-or-scheme-less-redirect", "live-table-item", "multi-hop-after-non-recursive-call", "opt-quoted", "opt-platform_aware",
+FLOORS = ["carrier-or-route-spelled-with-escapes", "route-in-another-letter-case", "N-of-C-checked", "F-of-C-checked", "canonical-collision-seen", "normalized-collision-seen", "sort-order-depends-on-spelling", "escaped-tracking-key", "escaped-uppercase-or-scheme-less-redirect", "live-table-item", "multi-hop-after-non-recursive-call", "opt-quoted", "opt-platform_aware",
           "opt-strip_suffix", "bucket-by-log"]
 PROBE_FLOORS = ["qsl_sort_key", "should_strip_query_item"]
 
@@ -77,6 +77,28 @@ class Fns(object):
         return self._r("ural.fingerprint_url:fingerprint_url", u, kw, call(self.F, u, **kw))
 
 
+def why(u, c, v):
+    """Mechanism class of a failed composition equality (never contains input values)."""
+    from ural.infer_redirection import infer_redirection as IR
+    from ural.canonicalize_url import canonicalize_url as C
+    try:
+        cu = clean(u)
+        a, b = IR(cu), IR(c)
+        if (a == cu) != (b == c) or (a != cu and C(a) != C(b)):
+            # the redirection inferred from the raw spelling is not the one inferred from the canonical spelling
+            return "redirect-hint-read-on-the-raw-spelling"
+    except Exception:
+        pass
+    host = ""
+    try:
+        host = R(clean(u))["host"] or ""
+    except Exception:
+        pass
+    if v["platform_aware"] and any(host == d or host.endswith("." + d) for d in ("youtube.com", "youtu.be", "facebook.com", "fb.com")):
+        return "platform-url:" + vname(v)
+    return vname(v)
+
+
 def laws(ctx, fns, u, vectors, log):
     if not parseable(u):
         ctx.count("unparseable-not-judged")
@@ -100,11 +122,11 @@ def laws(ctx, fns, u, vectors, log):
             ctx.count("N-of-C-checked")
             nc = fns.n(c, v)
             if nc != n:
-                ctx.viol("C03:N(C(u))!=N(u):%s" % vn, {"url": u, "vector": v, "inner_quoted": cq}, {"C(u)": c, "N(C(u))": nc, "N(u)": n})
+                ctx.viol("C03:N(C(u))!=N(u):%s" % why(u, c, v), {"url": u, "vector": v, "inner_quoted": cq}, {"C(u)": c, "N(C(u))": nc, "N(u)": n})
             ctx.count("F-of-C-checked")
             fc = fns.f(c, v)
             if fc != f:
-                ctx.viol("C03:F(C(u))!=F(u):%s" % vn, {"url": u, "vector": v, "inner_quoted": cq}, {"C(u)": c, "F(C(u))": fc, "F(u)": f})
+                ctx.viol("C03:F(C(u))!=F(u):%s" % why(u, c, v), {"url": u, "vector": v, "inner_quoted": cq}, {"C(u)": c, "F(C(u))": fc, "F(u)": f})
             if c != u:
                 ctx.nontrivial((u, vn, cq))
         c = fns.c(u, v)
@@ -170,6 +192,16 @@ ESC_TRACKING = [("http://a.com/x?%75tm_source=1&id=2", "http://a.com/x?id=2"), (
                 ("http://a.com/x?re%66=twitter", "http://a.com/x?ref=%74witter")]
 
 
+# carriers / platform routes whose recognisable part is itself spelled with escapes, dot segments or other letter case
+CARRIER_SPELLINGS = ["http://google.com/%75rl?q=http://x.com", "http://www.google.com/./url?q=http%3A%2F%2Fy.com%2Fa", "http://cdn.ampproject.org/./c/s/x.com/a", "https://a.cdn.ampproject.org/c/x/../s/b.org/p",
+                     "http://a.com/r?%75rl=http%3A%2F%2Fb.org%2Fp", "http://l.facebook.com/%6C.php?u=http%3A%2F%2Fb.org%2Fp", "http://a.com/x/..//r?next=%2Fhome", "http://a.com/r?u%72l=http%3A%2F%2Fb.org",
+                     "http://youtube.com/%43hannel/UC123/videos", "https://www.youtube.com/%57atch?v=aBcDeFgHiJk", "https://www.facebook.com/%50hoto.php?fbid=10159", "https://www.youtube.com/./watch?v=aBcDeFgHiJk",
+                     "https://www.youtube.com/%63/SomeName/videos", "https://youtu.be/%61BcDeFgHiJk", "https://www.facebook.com/groups/%31234/permalink/5678/"]
+CASE_ROUTES = [("https://youtube.com/c/Feed", "https://youtube.com/Feed"), ("https://youtube.com/c/WATCH", "https://youtube.com/WATCH"), ("https://www.youtube.com/c/About", "https://www.youtube.com/About"),
+               ("https://www.youtube.com/Channel/UCabcdefghijklmnopqrstuv", "https://www.youtube.com/channel/UCabcdefghijklmnopqrstuv"), ("https://www.youtube.com/User/Someone", "https://www.youtube.com/user/Someone"),
+               ("https://www.facebook.com/Groups/1234", "https://www.facebook.com/groups/1234"), ("https://www.facebook.com/PHOTO.php?fbid=10159", "https://www.facebook.com/photo.php?fbid=10159")]
+
+
 def run(ctx):
     fns = Fns()
     fns.ctx = ctx
@@ -197,6 +229,14 @@ def run(ctx):
                 laws(ctx, fns, a, V, log)
                 laws(ctx, fns, b, V, log)
                 collisions(ctx, fns, a, b, "escaped-uppercase", V)
+            for u in CARRIER_SPELLINGS:
+                ctx.count("carrier-or-route-spelled-with-escapes")
+                laws(ctx, fns, u, V, log)
+            for a, b in CASE_ROUTES:
+                ctx.count("route-in-another-letter-case")
+                laws(ctx, fns, a, V, log)
+                laws(ctx, fns, b, V, log)
+                collisions(ctx, fns, a, b, "route-case", V)
             for a, b in ESC_TRACKING:
                 ctx.count("escaped-tracking-key")
                 laws(ctx, fns, a, V, log)
